@@ -651,6 +651,111 @@ def _unroll_table_loops(tree: ast.Module) -> None:
     _T().visit(tree)
 
 
+def _split_isinstance_handlers(tree: ast.Module) -> None:
+    """`except BaseException as e: if isinstance(e, A): X elif isinstance(e, B): Y else: Z; TAIL` is read as the handler list it
+    emulates - `except A as e: X; TAIL`, `except B as e: Y; TAIL`, `except BaseException as e: Z; TAIL` (first match wins in both
+    spellings).  Also `v = next(ELT for row in TABLE if isinstance(e, row[0]))` over a module-level table of literal rows is read
+    as the if / elif chain of assignments it computes.  Nothing is decided here."""
+    import copy
+    tables: Dict[str, ast.AST] = {}
+    counts: Dict[str, int] = {}
+    for st in tree.body:
+        tg, val = None, None
+        if isinstance(st, ast.Assign) and len(st.targets) == 1 and isinstance(st.targets[0], ast.Name):
+            tg, val = st.targets[0].id, st.value
+        elif isinstance(st, ast.AnnAssign) and isinstance(st.target, ast.Name) and st.value is not None:
+            tg, val = st.target.id, st.value
+        if tg is None:
+            continue
+        counts[tg] = counts.get(tg, 0) + 1
+        if isinstance(val, (ast.Tuple, ast.List)) and 1 <= len(val.elts) <= 16 and all(isinstance(r, ast.Tuple) for r in val.elts) \
+                and len({len(r.elts) for r in val.elts}) == 1:
+            tables[tg] = val
+    tables = {k: v for k, v in tables.items() if counts.get(k) == 1}
+
+    def subst(node: ast.AST, env: Dict[str, ast.AST]) -> ast.AST:
+        class _S(ast.NodeTransformer):
+            def visit_Name(s_, x):  # type: ignore[no-untyped-def]  # noqa: N805
+                if isinstance(x.ctx, ast.Load) and x.id in env:
+                    return ast.copy_location(copy.deepcopy(env[x.id]), x)
+                return x
+        return _S().visit(copy.deepcopy(node))
+
+    class _N(ast.NodeTransformer):
+        # first-match lookups over a literal table
+        def visit_Assign(self, node):  # type: ignore[no-untyped-def]
+            self.generic_visit(node)
+            v = node.value
+            if not (len(node.targets) == 1 and isinstance(node.targets[0], ast.Name) and isinstance(v, ast.Call) and isinstance(v.func, ast.Name)
+                    and v.func.id == "next" and 1 <= len(v.args) <= 2 and not v.keywords and isinstance(v.args[0], ast.GeneratorExp)):
+                return node
+            ge = v.args[0]
+            if len(ge.generators) != 1 or len(ge.generators[0].ifs) != 1 or ge.generators[0].is_async:
+                return node
+            gen = ge.generators[0]
+            tbl = tables.get(gen.iter.id) if isinstance(gen.iter, ast.Name) else None
+            if tbl is None or not (isinstance(gen.target, ast.Tuple) and all(isinstance(t, ast.Name) for t in gen.target.elts)
+                                   and len(gen.target.elts) == len(tbl.elts[0].elts)):
+                return node
+            tnames = [t.id for t in gen.target.elts]
+            chain: List[ast.stmt] = []
+            if len(v.args) == 2:
+                chain = [ast.copy_location(ast.Assign(targets=[copy.deepcopy(node.targets[0])], value=v.args[1]), node)]
+            else:
+                chain = [ast.copy_location(ast.Raise(exc=ast.Call(func=ast.Name(id="StopIteration", ctx=ast.Load()), args=[], keywords=[]), cause=None), node)]
+            for row in reversed(tbl.elts):
+                env = dict(zip(tnames, row.elts))
+                test = subst(gen.ifs[0], env)
+                body = [ast.copy_location(ast.Assign(targets=[copy.deepcopy(node.targets[0])], value=subst(ge.elt, env)), node)]
+                chain = [ast.copy_location(ast.If(test=test, body=body, orelse=chain), node)]
+            for x in chain:
+                ast.fix_missing_locations(x)
+            return chain
+
+    _N().visit(tree)
+
+    class _H(ast.NodeTransformer):
+        def visit_Try(self, node):  # type: ignore[no-untyped-def]
+            self.generic_visit(node)
+            new_handlers = []
+            for h in node.handlers:
+                first = h.body[0] if h.body else None
+                if not (h.name and isinstance(first, ast.If)):
+                    new_handlers.append(h)
+                    continue
+                arms = []
+                cur = first
+                ok = True
+                while True:
+                    t = cur.test
+                    if not (isinstance(t, ast.Call) and isinstance(t.func, ast.Name) and t.func.id == "isinstance" and len(t.args) == 2
+                            and isinstance(t.args[0], ast.Name) and t.args[0].id == h.name and not t.keywords):
+                        ok = False
+                        break
+                    arms.append((t.args[1], cur.body))
+                    if len(cur.orelse) == 1 and isinstance(cur.orelse[0], ast.If):
+                        cur = cur.orelse[0]
+                        continue
+                    tail_else = cur.orelse
+                    break
+                if not ok or any(isinstance(x, ast.Name) and x.id == h.name and not isinstance(x.ctx, ast.Load) for st in h.body for x in ast.walk(st)):
+                    new_handlers.append(h)
+                    continue
+                tail = h.body[1:]
+                for typ, body in arms:
+                    nh = ast.ExceptHandler(type=copy.deepcopy(typ), name=h.name, body=[copy.deepcopy(x) for x in body] + [copy.deepcopy(x) for x in tail])
+                    new_handlers.append(ast.copy_location(nh, h))
+                rest = [copy.deepcopy(x) for x in tail_else] + [copy.deepcopy(x) for x in tail]
+                if not rest:
+                    rest = [ast.copy_location(ast.Pass(), h)]
+                new_handlers.append(ast.copy_location(ast.ExceptHandler(type=h.type, name=h.name, body=rest), h))
+            node.handlers = new_handlers
+            ast.fix_missing_locations(node)
+            return node
+
+    _H().visit(tree)
+
+
 def _specialise_constant_dispatch(tree: ast.Module, modname: str, known: Optional[set]) -> None:
     """A private helper introduced after the rules were written that DISPATCHES on a string parameter -
     `getattr(client, request)(...)`, `TABLE[request]` - and is only ever called with string literals for it
@@ -935,6 +1040,7 @@ BUILTIN_EXC = {
     "StopIteration": "Exception", "StopAsyncIteration": "Exception", "TypeError": "Exception",
     "ValueError": "Exception", "UnicodeError": "ValueError", "UnicodeDecodeError": "UnicodeError",
     "UnicodeEncodeError": "UnicodeError", "Warning": "Exception",
+    "JSONDecodeError": "ValueError", "json.JSONDecodeError": "ValueError", "json.decoder.JSONDecodeError": "ValueError",
     # third party, as used by the package
     "ClientError": "Exception", "BotoCoreError": "Exception",
     "botocore.exceptions.ClientError": "Exception", "botocore.exceptions.BotoCoreError": "Exception",
@@ -989,6 +1095,7 @@ class Program:
             _desugar_match(tree)
             _plain_local_assignments(tree)
             _unroll_table_loops(tree)
+            _split_isinstance_handlers(tree)
             _literal_tables(tree)
             _record_field_aliases(tree, records)
             modname = f"{PKG}.{fn[:-3]}" if fn != "__init__.py" else PKG
